@@ -344,6 +344,11 @@ func (w *world) Run(t *rt.Tape, trace bool) *core.Result {
 		ab.EmptyReads = 2 + t.Choose(rt.SGen, 3)
 		ba.EmptyReads = 2 + t.Choose(rt.SGen, 3)
 	}
+	// one case in four: the transport hands out the last bytes of a closed stream together with
+	// io.EOF (legal for an io.Reader; the Conn wraps any io.ReadWriter)
+	if t.Choose(rt.SGen, 4) == 0 {
+		ab.EOFWithData, ba.EOFWithData = true, true
+	}
 	first := t.Choose(rt.SGen, 2) // which side closes first (relies on Close to flush)
 	a := &side{name: "A"}
 	b := &side{name: "B"}
@@ -540,6 +545,7 @@ func (w *world) Run(t *rt.Tape, trace bool) *core.Result {
 	res.Reach["pipe.reader-blocked"] += st.ReaderBlocked
 	res.Reach["pipe.one-byte-reads"] += st.OneByteReads
 	res.Reach["pipe.empty-reads"] += st.EmptyReads
+	res.Reach["pipe.last-bytes-with-EOF"] += st.EOFWithData
 	res.Nontrivial = len(a.sendOps)+len(b.sendOps) > 0 && rr.Switches > 2
 	if res.Inconclusive != "" {
 		return res
